@@ -30,6 +30,8 @@ ASSUMED = {
     "str.lower": "str.lower is an uninterpreted per-string function unless the string is concrete",
     "str.split": "s.split(c) for a one-character c: >= 1 components, none contains c, one component iff c not in s "
                  "(then it is s), s starts with the first and ends with the last component (canonical function of s)",
+    "str.join": "c.join(seq) for a one-character c is a function of the sequence; splitting it at c gives the sequence "
+                "back when it is non-empty and no element contains c",
     "str.strip": "str.strip is an uninterpreted per-string function unless the string is concrete",
     "pathlib (pure paths)": "a path is an opaque value with .parent / .stem / .name / .parts as uninterpreted functions; "
                             "Path(p) of a path is that path; nothing about the file system is modelled",
@@ -368,7 +370,7 @@ class Lib:
         raise EngineLimit("set operator")
 
     def seq_concat(self, ctx, a, b):
-        other = b if isinstance(a, SymSeq) else a
+        other = a if isinstance(a, SymSeq) else b  # the symbolic operand: its element kind types a literal operand
 
         def as_seq(v):
             if isinstance(v, SymSeq):
@@ -667,6 +669,14 @@ class Lib:
             if ctx.decide(lift(self.e, ctx, x.is_none)):
                 raise self.raise_ext("TypeError")
             return self.bi_int(ctx, x.val, base)
+        if isinstance(x, z3.ExprRef) and z3.is_string(x) and base is None:
+            from . import strmodel as _sm
+
+            if _sm.ENABLED:
+                ok, val = _sm.py_int_of_str(self.e, ctx, x)
+                if ctx.decide(z3.Not(ok)):
+                    raise self.raise_ext("ValueError", "int() of a string that is not an integer literal")
+                return val
         if isinstance(x, str):
             try:
                 return int(x) if base is None else int(x, base)
@@ -1248,6 +1258,8 @@ class Lib:
         return z3.SuffixOf(V.Str.unwrap(p), V.Str.unwrap(o))
 
     def m_str_join(self, ctx, o, items):
+        if isinstance(items, SymSeq) and items.kind is V.Str and isinstance(o, str) and len(o) == 1:
+            return self.join_seq(ctx, o, items)
         xs = self.e.iter_concrete(ctx, items) if not isinstance(items, V.MappedIter) else None
         if xs is None:
             return V.Opaque("joined string")
@@ -1269,12 +1281,32 @@ class Lib:
             return self.split_seq(ctx, o, sep)
         raise EngineLimit("split of a symbolic string")
 
+    def join_seq(self, ctx, sep: str, items: SymSeq):
+        """<one character>.join(seq of str): a string determined by the sequence, with the ASSUMED characteristic fact
+        that splitting it at the separator gives the sequence back when the sequence is non-empty and no element
+        contains the separator (str.join / str.split are mutually inverse there)."""
+        from .loops import mk_forall as _mkf
+
+        tag = "%x" % ord(sep)
+        S, I_ = z3.StringSort(), z3.IntSort()
+        j = self.e.uf("join!%s" % tag, z3.ArraySort(I_, S), I_, S)(items.arr, items.length)
+        sp = self.split_seq(ctx, j, sep)
+        k = z3.FreshConst(I_, "k")
+        sv = z3.StringVal(sep)
+        clean = _mkf([k], z3.Implies(z3.And(0 <= k, k < items.length), z3.Not(z3.Contains(z3.Select(items.arr, k), sv))))
+        same = _mkf([k], z3.Implies(z3.And(0 <= k, k < items.length), z3.Select(sp.arr, k) == z3.Select(items.arr, k)),
+                         patterns=[z3.Select(sp.arr, k)])
+        ctx.assume(z3.Implies(z3.And(items.length >= 1, clean), z3.And(sp.length == items.length, same)))
+        return j
+
     def split_seq(self, ctx, o, sep: str):
         """s.split(<one character>): canonical sequence split!<sep>(s) (a function of s) with the characteristic facts
         ASSUMED from the definition of str.split: at least one component; no component contains the separator; exactly
         one component iff s does not contain the separator, and then it is s; the separator count is len - 1;
         s is the join of the components (stated for the first and the last component: s starts with c[0] and ends with
         c[-1], each followed / preceded by the separator when there are several)."""
+        from .loops import mk_forall as _mkf
+
         tag = "%x" % ord(sep)
         S, I_ = z3.StringSort(), z3.IntSort()
         arr = self.e.uf("split!%s!arr" % tag, S, z3.ArraySort(I_, S))(o)
@@ -1284,7 +1316,7 @@ class Lib:
         ctx.assume(ln >= 1)
         ctx.assume((ln == 1) == z3.Not(z3.Contains(o, sv)))
         ctx.assume(z3.Implies(ln == 1, z3.Select(arr, 0) == o))
-        ctx.add_axiom(z3.ForAll([k], z3.Implies(z3.And(0 <= k, k < ln), z3.Not(z3.Contains(z3.Select(arr, k), sv))),
+        ctx.add_axiom(_mkf([k], z3.Implies(z3.And(0 <= k, k < ln), z3.Not(z3.Contains(z3.Select(arr, k), sv))),
                                 patterns=[z3.Select(arr, k)]))
         ctx.assume(z3.Implies(ln > 1, z3.And(z3.PrefixOf(z3.Concat(z3.Select(arr, 0), sv), o),
                                              z3.SuffixOf(z3.Concat(sv, z3.Select(arr, ln - 1)), o))))
